@@ -218,6 +218,7 @@ type faultPlan struct {
 	count      int
 	Fired      bool
 	Crashed    bool
+	FiredEv    int // world event number when it fired
 }
 
 type storeSim struct {
@@ -254,11 +255,13 @@ func simStoreBefore(method string, args ...any) error {
 			f.count++
 			if f.FailAt > 0 && f.count == f.FailAt {
 				f.Fired = true
+				f.FiredEv = curEv()
 				s.Errs++
 				return errInjected
 			}
 			if f.CrashAt > 0 && f.count == f.CrashAt && !f.CrashAfter {
 				f.Fired, f.Crashed = true, true
+				f.FiredEv = curEv()
 				simrt.CrashNow()
 			}
 		}
@@ -277,6 +280,7 @@ func simStoreAfter(method string, err error) {
 	if f := s.Fault; f != nil && !f.Fired && simrt.W != nil && f.CrashAfter {
 		if (f.FailMethod == "" || f.FailMethod == method) && f.CrashAt > 0 && f.count == f.CrashAt {
 			f.Fired, f.Crashed = true, true
+			f.FiredEv = curEv()
 			simrt.CrashNow()
 		}
 	}
@@ -326,4 +330,13 @@ func seedUser(idx int, level auth.Level, defAuth, defAnon types.AccessMode) *sim
 	must(err)
 	u.Token = tok
 	return u
+}
+
+var curWorld *simWorld
+
+func curEv() int {
+	if curWorld != nil {
+		return curWorld.ev
+	}
+	return 0
 }
